@@ -217,9 +217,12 @@ func (m *recoveryMessage) GetPrepareResponses(p dbft.ConsensusPayload[util.Uint2
 		return nil
 	}
 
-	ps := make([]dbft.ConsensusPayload[util.Uint256], len(m.preparationPayloads))
+	ps := make([]dbft.ConsensusPayload[util.Uint256], 0, len(m.preparationPayloads))
 
-	for i, resp := range m.preparationPayloads {
+	for _, resp := range m.preparationPayloads {
+		if int(resp.ValidatorIndex) >= len(validators) {
+			continue // Not a validator, nothing to restore.
+		}
 		r := fromPayload(prepareResponseType, p.(*Payload), &prepareResponse{
 			preparationHash: *m.preparationHash,
 		})
@@ -228,7 +231,7 @@ func (m *recoveryMessage) GetPrepareResponses(p dbft.ConsensusPayload[util.Uint2
 		r.Witness.InvocationScript = resp.InvocationScript
 		r.Witness.VerificationScript = getVerificationScript(resp.ValidatorIndex, validators)
 
-		ps[i] = r
+		ps = append(ps, r)
 	}
 
 	return ps
@@ -236,9 +239,12 @@ func (m *recoveryMessage) GetPrepareResponses(p dbft.ConsensusPayload[util.Uint2
 
 // GetChangeViews implements the payload.RecoveryMessage interface.
 func (m *recoveryMessage) GetChangeViews(p dbft.ConsensusPayload[util.Uint256], validators []dbft.PublicKey) []dbft.ConsensusPayload[util.Uint256] {
-	ps := make([]dbft.ConsensusPayload[util.Uint256], len(m.changeViewPayloads))
+	ps := make([]dbft.ConsensusPayload[util.Uint256], 0, len(m.changeViewPayloads))
 
-	for i, cv := range m.changeViewPayloads {
+	for _, cv := range m.changeViewPayloads {
+		if int(cv.ValidatorIndex) >= len(validators) {
+			continue // Not a validator, nothing to restore.
+		}
 		c := fromPayload(changeViewType, p.(*Payload), &changeView{
 			newViewNumber: cv.OriginalViewNumber + 1,
 			timestamp:     cv.Timestamp,
@@ -249,7 +255,7 @@ func (m *recoveryMessage) GetChangeViews(p dbft.ConsensusPayload[util.Uint256], 
 		c.Witness.InvocationScript = cv.InvocationScript
 		c.Witness.VerificationScript = getVerificationScript(cv.ValidatorIndex, validators)
 
-		ps[i] = c
+		ps = append(ps, c)
 	}
 
 	return ps
@@ -263,16 +269,19 @@ func (m *recoveryMessage) GetPreCommits(p dbft.ConsensusPayload[util.Uint256], v
 
 // GetCommits implements the payload.RecoveryMessage interface.
 func (m *recoveryMessage) GetCommits(p dbft.ConsensusPayload[util.Uint256], validators []dbft.PublicKey) []dbft.ConsensusPayload[util.Uint256] {
-	ps := make([]dbft.ConsensusPayload[util.Uint256], len(m.commitPayloads))
+	ps := make([]dbft.ConsensusPayload[util.Uint256], 0, len(m.commitPayloads))
 
-	for i, c := range m.commitPayloads {
+	for _, c := range m.commitPayloads {
+		if int(c.ValidatorIndex) >= len(validators) {
+			continue // Not a validator, nothing to restore.
+		}
 		cc := fromPayload(commitType, p.(*Payload), &commit{signature: c.Signature})
 		cc.message.ValidatorIndex = c.ValidatorIndex
 		cc.Sender = validators[c.ValidatorIndex].(*keys.PublicKey).GetScriptHash()
 		cc.Witness.InvocationScript = c.InvocationScript
 		cc.Witness.VerificationScript = getVerificationScript(c.ValidatorIndex, validators)
 
-		ps[i] = cc
+		ps = append(ps, cc)
 	}
 
 	return ps
